@@ -102,7 +102,8 @@ def rt_specs(draw, tier):
              full=draw(st.booleans()), lang=draw(st.sampled_from(["C", "C", "Py"])), openmp=draw(st.booleans()),
              via=draw(st.sampled_from(["dynmat", "dynmat", "eigen"])), fc_in=draw(st.sampled_from(["full", "compact"])),
              # the transformer object is used once, or first for another model (possibly through the other language path)
-             before=draw(st.sampled_from(["none", "none", "C", "Py"])))
+             before=draw(st.sampled_from(["none", "none", "C", "Py"])),
+             cplayout=draw(st.sampled_from(["default", "default", "list", "fortran", "strided", "transposed"])))
     return b
 
 
@@ -125,6 +126,13 @@ def run_roundtrip(spec):
     ph.force_constants = np.array(fc[prim.p2s_map], order="C") if spec["fc_in"] == "compact" else fc.copy()
     d2f = DynmatToForceConstants(prim, ph.supercell, is_full_fc=spec["full"], use_openmp=spec["openmp"])
     cq = d2f.commensurate_points
+    if spec.get("cplayout", "default") != "default":
+        # the same points handed back through the public setter in another memory layout
+        from vlib.case import present
+
+        d2f.commensurate_points = present(np.array(cq, dtype="double"), spec["cplayout"])
+        if np.abs(np.asarray(d2f.commensurate_points) - cq).max() > 0:
+            return Out(ok=False, msg="commensurate_points setter changed the values (%s)" % spec["cplayout"])
     N = len(ph.supercell) // len(prim)
     if len(cq) != N:
         return Out(ok=False, msg="number of commensurate points %d != N %d" % (len(cq), N))
@@ -168,7 +176,7 @@ def run_roundtrip(spec):
     mm = int(multi[..., 0].max()) if multi.ndim == 3 else int(multi.max())
     nondiag = bool(np.any(S - np.diag(np.diag(S))))
     classes = ["full" if spec["full"] else "compact", "lang:" + spec["lang"], "omp" if spec["openmp"] else "noomp", spec["via"],
-               "in:" + spec["fc_in"], "mult:%d" % min(mm, 8), "object_used_before:" + spec.get("before", "none")]
+               "in:" + spec["fc_in"], "mult:%d" % min(mm, 8), "object_used_before:" + spec.get("before", "none"), "cpoints:" + spec.get("cplayout", "default")]
     if e > tol:
         return Out(ok=False, classes=classes, info={"err": e},
                    msg="fc -> D(commensurate q) -> fc does not return the input: rel err %.3e (%s)" % (e, ",".join(classes)))
@@ -182,7 +190,7 @@ def ph2ph_specs(draw, tier):
              M=draw(st.sampled_from([[1, 1, 2], [2, 1, 1], [1, 2, 1], [2, 2, 1], [1, 1, 3], [2, 1, 2], "unrelated"])),
              S2=draw(st.lists(st.integers(-2, 2), min_size=9, max_size=9).filter(lambda v: 1 <= det3(np.array(v).reshape(3, 3)) <= 6)),
              nac=draw(st.sampled_from(["none", "none", "wang_interp", "wang_nointerp"])), compact=draw(st.booleans()),
-             snf=draw(st.booleans()), dense_svecs=draw(st.booleans()))
+             snf=draw(st.booleans()), dense_svecs=draw(st.booleans()), set_masses=draw(st.booleans()))
     return b
 
 
@@ -209,6 +217,9 @@ def run_ph2ph(spec):
     prim = ph.primitive
     fc, _ = dense_fc(ph.supercell, rng)
     ph.force_constants = np.array(fc[prim.p2s_map], order="C") if spec["compact"] else fc
+    if spec.get("set_masses"):
+        ph.masses = 1.0 + 40 * rng_from(spec["key"], 21).random(len(prim))  # e.g. an isotope substitution after construction
+        prim = ph.primitive
     with_nac = False
     if spec["nac"] != "none" and len(set(prim.symbols)) >= 1:
         Z, eps = sym_nac(prim, rng)
@@ -231,6 +242,8 @@ def run_ph2ph(spec):
         # interpolation ignored NAC: compare with the NAC-free original
         ref_obj = Phonopy(c["cell"], supercell_matrix=S1, primitive_matrix=_pmat(spec["pmat"], c), log_level=0, **okw)
         ref_obj.force_constants = ph.force_constants
+        if spec.get("set_masses"):
+            ref_obj.masses = np.array(ph.masses, copy=True)
     for q in cq:
         x = T2 @ q
         if np.abs(x - np.rint(x)).max() > 1e-9:
@@ -252,7 +265,8 @@ def run_ph2ph(spec):
         return Out(ok=False, msg="ph2ph did not keep the force-constant layout")
     return Out(ok=True, nontrivial=n_assert >= 2 and det3(S2) >= 2,
                classes=["related" if spec["M"] != "unrelated" else "unrelated", "nac:" + spec["nac"], "compact" if spec["compact"] else "full",
-                        "snf" if spec.get("snf") else "classic", "dense" if spec.get("dense_svecs", True) else "sparse"],
+                        "snf" if spec.get("snf") else "classic", "dense" if spec.get("dense_svecs", True) else "sparse",
+                        "masses_set" if spec.get("set_masses") else "masses_default"],
                info={"err": worst, "asserted_q": n_assert})
 
 
